@@ -78,3 +78,14 @@ Theorem c12_save_never_panics_never_hangs :
   (forall n, save_model sha256 sha512 hmac256 kdf outer_enc compress gzip render keystream db d vd elements <> Panic n) /\
   save_model sha256 sha512 hmac256 kdf outer_enc compress gzip render keystream db d vd elements <> OutOfFuel.
 Proof. exact save_model_never_panics_never_hangs. Qed.
+
+From KP Require Import XmlText XmlTextProofs SaveOpenText.
+(* finding F6a at the level of the model: a title holding U+0001 lies inside the event-level domain
+   wf_content, outside the text domain, and the document the writer prints for it is not read back to the
+   events that were written (the reader rejects the character) *)
+Theorem c12_non_xml_character_refuted :
+  wf_content TextDomainExamples.gz TextDomainExamples.gunz TextDomainExamples.bad_char = true /\
+  text_content_ok TextDomainExamples.gz TextDomainExamples.bad_char = false /\
+  lex_xml (render_xml (dump_events TextDomainExamples.gz TextDomainExamples.bad_char TextDomainExamples.ks))
+  <> dump_events TextDomainExamples.gz TextDomainExamples.bad_char TextDomainExamples.ks.
+Proof. exact bad_char_refuted. Qed.
